@@ -47,8 +47,12 @@ Inductive case :=
         (tape : dtape)
 | CRecv (decomp : option bool) (max : N) (key : option bytes) (eof : bool)
         (wire : blob) (tape : itape)
-        (expect : option (list (bool * blob))).  (* Some: the (text?, message) list a conforming
+        (expect : option (list (bool * blob)))   (* Some: the (text?, message) list a conforming
                                                     peer encoded into [wire] *)
+| CNeg (a : agreed)
+| CClose (decomp : option bool) (max : N) (key : option bytes) (eof : bool)
+         (code : option N) (reason : option blob)  (* close(code, reason) called locally first *)
+         (wire : blob) (tape : itape).                             (* _create_compressors("client" | "server", a) *)
 
 Definition sres_obs (r : sres) : obs :=
   match r with
@@ -104,8 +108,25 @@ Definition recv_case (decomp : option bool) (max : N) (key : option bytes) (eof 
   outcome_obs (recv_wire itape tape_inflate
                  {| r_decomp := decomp; r_max := max; r_key := key |} eof (rinit tape) (expand wire)).
 
+Definition neg_obs (r : option ((bool * N) * (bool * N))) : obs :=
+  match r with
+  | Some ((cp, cw), (dp, dw)) =>
+      OList [OList [OBool cp; OInt (Z.of_N cw)]; OList [OBool dp; OInt (Z.of_N dw)]]
+  | None => OTag "ValueError"
+  end.
+
+Definition close_case (decomp : option bool) (max : N) (key : option bytes) (eof : bool)
+           (code : option N) (reason : option blob) (wire : blob) (tape : itape) : obs :=
+  let cfg := {| r_decomp := decomp; r_max := max; r_key := key |} in
+  match ws_close itape cfg (rinit tape) code (option_map expand reason) with
+  | (st1, None) => outcome_obs (recv_wire itape tape_inflate cfg eof st1 (expand wire))
+  | (st1, Some e) => state_obs (exn_name e) st1
+  end.
+
 Definition run_case (c : case) : obs :=
   match c with
+  | CClose decomp max key eof code reason wire tape => close_case decomp max key eof code reason wire tape
+  | CNeg a => OList [neg_obs (create_compressors true a); neg_obs (create_compressors false a)]
   | CSend mask comp msgs tape => OList (send_all {| s_mask := mask; s_comp := comp |} tape msgs)
   | CRecv decomp max key eof wire tape _ => recv_case decomp max key eof wire tape
   end.
@@ -150,8 +171,36 @@ Fixpoint sent_all_ok mask comp (msgs : list (bool * blob * bytes)) (os : list ob
   | _, _ => false
   end.
 
+(* the first frame written after a local close(code, reason) is the close frame carrying
+   the code (1000 when only a reason was given) and the reason *)
+Definition close_sent_ok (code : option N) (reason : option bytes) (o : obs) : bool :=
+  match o with
+  | OList [OTag tag; _; _; OBytes w; _; _] =>
+      if String.eqb tag "Escaped:ValueError" then true
+      else
+        match parse_frame w with
+        | Some (f, _) =>
+            f_fin f && (f_op f =? 8) && (f_rsv f =? 0)
+            && bytes_eqb (f_data f)
+                 ((match code, reason with
+                   | Some c, _ => store BE 2 c | None, Some _ => store BE 2 1000 | None, None => [] end)
+                  ++ match reason with Some r => r | None => [] end)
+        | None => false
+        end
+  | _ => true
+  end.
+
 Definition check_case (c : case) (o : obs) : bool :=
   match c with
+  | CClose _ _ _ _ code reason _ _ => close_sent_ok code (option_map expand reason) o
+  | CNeg _ =>
+      (* when both ends accept the agreed parameters, each compressor is configured like the
+         other end's decompressor *)
+      match o with
+      | OList [OList [cc; cd]; OList [sc; sd]] => obs_eqb cc sd && obs_eqb sc cd
+      | OList [_; _] => true
+      | _ => false
+      end
   | CSend mask comp msgs _ =>
       match o with OList os => sent_all_ok mask comp msgs os | _ => false end
   | CRecv _ _ _ eof _ _ None => true
